@@ -141,3 +141,18 @@ Definition tangent_norms_F (m d : nat) (img : list float) (ys : list (list float
                      (project_tangent float 0 PrimFloat.add PrimFloat.mul PrimFloat.sub PrimFloat.div PrimFloat.sqrt
                         (gvsub float PrimFloat.sub a' y) y)))
        (chunk float m d img) ys.
+
+(* distance from x to the nearest float32 rounding boundary (midpoint of two neighbouring float32 values); 1 for
+   x = 0.  The harness skips (and counts) a block whose cosine distance lies within 1e-13 of such a boundary: there
+   a last-bit difference between numba's fastmath arithmetic and this model's flips the float32 store. *)
+Definition tie_dist_F (x : float) : float :=
+  if PrimFloat.eqb x 0 then 1 else
+  let (m, e) := frshiftexp x in
+  let t := m * 0x1p24 in
+  let r := (t + 0x1.8p52) - 0x1.8p52 in
+  ldshiftexp ((0.5 - PrimFloat.abs (t - r)) * 0x1p-24) e.
+
+Definition cosines_F (m d : nat) (img : list float) (ys : list (list float)) : list float :=
+  map2 (fun a y => cosine float 0 1 PrimFloat.add PrimFloat.mul PrimFloat.sub PrimFloat.div PrimFloat.eqb PrimFloat.sqrt
+                     (l2n float 0 PrimFloat.add PrimFloat.mul PrimFloat.div PrimFloat.ltb PrimFloat.sqrt a) y)
+       (chunk float m d img) ys.
